@@ -432,6 +432,7 @@ func (st *stats) handle(cs *caseSpec, r core.CaseResult) bool {
 	st.allocChecks += int64(cr.AllocChecks)
 	st.structured += int64(cr.Structured)
 	st.buildOpens += int64(cr.BuildOpens)
+	c.Count("new_descriptor_reports_judged", int64(cr.CreatedJudged))
 	c.Count("state_build_descriptors_judged", int64(cr.BuildOpens))
 	c.Count("structured_poll_oneoff_calls", int64(cr.Structured))
 	st.stateCalls[cs.State] += int64(cr.Calls)
